@@ -112,8 +112,10 @@ def simulation_verdicts(up, base):
         try:
             sim = ModelingUpdate([[up.devices, [dev2]]], simulation_date=d)
         except Exception as e:  # noqa
-            if k == base["ks"][-1] or k == base["ks"][0]:
-                continue        # the ends of the period may be refused (period check on the local series)
+            if k == base["ks"][-1] or k == base["ks"][0] or err_enum(e) == "period":
+                # the period check works on the naive local series (`replace(tzinfo=…)`), which near a clock change —
+                # and with pytz's local-mean-time offsets — may refuse an instant of the window: not a question of conversion
+                continue
             out.append(f"simulation-raises:{err_enum(e)}")
             break
         twin = next((r for v, r in zip(sim.values_to_recompute, sim.recomputed_values) if v is up.utc_hourly_usage_journey_starts), None)
